@@ -3,7 +3,7 @@ import os
 import vcheck as V
 from props import common
 
-THEOREMS = ["C02_holds", "C02_deliver_ok", "C02_deliver_fail", "C02_begin_block", "C02_end_block", "C02_collision_refuted", "C02_holds_closed", "C02_run_ok_reachable", "C02_holds_inputs"]
+THEOREMS = ["C02_checked", "C02_checked_run", "C02_holds", "C02_deliver_ok", "C02_deliver_fail", "C02_begin_block", "C02_end_block", "C02_collision_refuted", "C02_holds_closed", "C02_run_ok_reachable", "C02_holds_inputs"]
 PROPS_V = "theories/Props/C02.v"
 
 
